@@ -527,6 +527,16 @@ func TestC09(t *testing.T) {
 	}
 
 	// deterministic grid: every pair/triple of element kinds at every batch position
+	rec.Regress(t, func(raw json.RawMessage) *Violation {
+		var c c09Case
+		if json.Unmarshal(raw, &c) != nil {
+			return nil
+		}
+		if c.Transport == "ws" {
+			return env.runWS(c)
+		}
+		return env.runBody(c)
+	})
 	t.Run("grid", func(t *testing.T) {
 		kinds := []string{
 			`{"jsonrpc":"2.0","id":%ID%,"method":"T.Add","params":[1,2]}`,
